@@ -74,21 +74,26 @@ Section Bridge.
   Lemma nodes_of_cons u w r t : nodes_of ((u, w) :: r) t = Z.of_nat u :: nodes_of r t.
   Proof. reflexivity. Qed.
 
-  Lemma walk_path lat off : forall p t d0 lp ls, lat_along lat p t ->
-    py_for (py_pairwise (nodes_of p t)) (d0, lp, ls) (step_edge N lat (Z.of_nat off)) =
+  Lemma walk_path lat off : forall p t d0 lp, lat_along lat p t ->
+    py_for (py_pairwise (nodes_of p t)) (d0, lp) (step_edge lat (Z.of_nat off)) =
     POk (match p with [] => d0 | _ => Some (Z.of_nat t) end,
-         lp ++ map (fun sw => inj (back off (fst sw), snd sw)) p,
-         fold_left (fun a sw => nadd N a (snd sw)) p ls).
+         lp ++ map (fun sw => inj (back off (fst sw), snd sw)) p).
   Proof.
-    induction p as [|[u w] r IH]; intros t d0 lp ls H.
+    induction p as [|[u w] r IH]; intros t d0 lp H.
     - cbn. rewrite app_nil_r. reflexivity.
     - destruct H as (Hw & Hr). destruct r as [|[v w'] r'].
-      + cbn [nodes_of map app fst py_pairwise py_for]. unfold step_edge at 1. cbn [fst snd]. rewrite Hw. cbn [pbind fold_left map snd fst].
+      + cbn [nodes_of map app fst py_pairwise py_for]. unfold step_edge at 1. cbn [fst snd]. rewrite Hw. cbn [pbind map snd fst].
         unfold inj. cbn [fst snd]. rewrite zback_of_nat. reflexivity.
-      + specialize (IH t (Some (Z.of_nat v)) (lp ++ [(zback (Z.of_nat off) (Z.of_nat u), w)]) (nadd N ls w) Hr).
+      + specialize (IH t (Some (Z.of_nat v)) (lp ++ [(zback (Z.of_nat off) (Z.of_nat u), w)]) Hr).
         rewrite (nodes_of_cons u w), (nodes_of_cons v w'), pairwise_cons2, <- (nodes_of_cons v w'). cbn [py_for].
         unfold step_edge at 1. cbn [fst snd]. rewrite Hw. cbn [pbind]. rewrite IH.
-        cbn [map fold_left]. unfold inj at 3. cbn [fst snd]. rewrite zback_of_nat, <- app_assoc. reflexivity.
+        cbn [map]. unfold inj at 3. cbn [fst snd]. rewrite zback_of_nat, <- app_assoc. reflexivity.
+  Qed.
+
+  (* the latency sum of the code (over the sorted lat_path, int line numbers) is the hand model's sum_pairs *)
+  Lemma sum_sorted_inj (l : list (nat * T)) : sum_sorted N (map inj l) = sum_pairs N l.
+  Proof.
+    unfold sum_sorted, sum_pairs. generalize (n0 N). induction l as [|x l IH]; intros a; [reflexivity|]. cbn [map fold_left]. apply IH.
   Qed.
 
   (* ---------------------------------------------------------------- sort, membership *)
@@ -133,11 +138,11 @@ Section Bridge.
          map (map inj) (if existsb (pairs_eqb N (snd (entry_of N off p))) seen then seen else snd (entry_of N off p) :: seen),
          if existsb (pairs_eqb N (snd (entry_of N off p))) seen then deps0 else deps0 ++ [inj_entry (entry_of N off p)]).
   Proof.
-    intros Hne Hlat. unfold step_path. cbn [fst snd]. rewrite (walk_path lat off p t d0 [] (n0 N) Hlat). cbn [pbind fst snd app].
+    intros Hne Hlat. unfold step_path. cbn [fst snd]. rewrite (walk_path lat off p t d0 [] Hlat). cbn [pbind fst snd app].
     assert (Eb : py_bound (match p with [] => d0 | _ :: _ => Some (Z.of_nat t) end) = POk (Z.of_nat t)) by (destruct p; [congruence | reflexivity]).
     rewrite Eb. cbn [pbind].
-    rewrite <- (map_map (fun sw0 => (back off (fst sw0), snd sw0)) inj), (py_sort_is_sort_pairs L), mem_inj.
-    unfold entry_of. cbn [snd]. destruct (existsb _ seen); reflexivity.
+    rewrite <- (map_map (fun sw0 => (back off (fst sw0), snd sw0)) inj), (py_sort_is_sort_pairs L), mem_inj, sum_sorted_inj.
+    unfold entry_of, inj_entry. cbv zeta. cbn [fst snd]. destruct (existsb _ seen); reflexivity.
   Qed.
 
   Lemma dedup_loop (L : sort_law) lat off : forall (ps : list (list (nat * T) * nat)) d0 seen deps0,
